@@ -334,11 +334,15 @@ let s_sched which g obs =
       | _ -> "bad:window-observation-shape" in
     (model, verdict)
   end else
+  if g "kind" = "window2" then begin
+    let (model, pre, _post) = Hist.run_window2 g obs in
+    (model, Judge.judge_window2 obs pre)
+  end else
   let (model, pre, _post, eui) = Hist.run_sched g obs in
   (model, Judge.judge_sched which g obs pre eui)
 
 let register_all register =
-  List.iter (fun c -> register ("sched" ^ c) (s_sched c)) ["C03"; "C05"; "C07"; "C09"];
+  List.iter (fun c -> register ("sched" ^ c) (s_sched c)) ["C03"; "C05"; "C06"; "C07"; "C09"; "C17"];
   register "keygen" s_keygen;
   register "registry" Regsuite.s_registry;
   register "codec" Regsuite.s_codec;
